@@ -5,7 +5,7 @@ because the closure runs on behalf of its creator or of whoever it is handed to)
 (`or_else(map_no_row_to_none)`), and poll-of-future edges (already resolved by the driver to the coroutine body).
 Unresolved trait-object / generic calls fan out to every workspace impl method of that name.
 """
-from .facts import callee_name
+from .facts import callee_name, op_place
 
 
 class CallGraph:
@@ -43,6 +43,19 @@ class CallGraph:
                     outs.add(rv["def"])
                 if rv and rv["k"] == "use" and rv["op"].get("k") and "fn" in rv["op"]["k"]:
                     outs.add(rv["op"]["k"]["fn"])
+        # closures / async blocks handed to a spawn call run as their own task
+        for b in P.bodies.values():
+            made = {}
+            for bb, idx, st in b.stmts():
+                rv = st.get("rv")
+                if rv and rv["k"] == "agg" and rv["akind"] in ("closure", "coroutine", "coroutine_closure") and len(st["p"]) == 1:
+                    made[st["p"][0]] = rv["def"]
+            for bb, t in b.calls():
+                n = callee_name(t) or ""
+                if n in ("tokio::spawn", "tokio::task::spawn", "tokio::task::spawn_local", "std::thread::spawn", "tokio::task::spawn_blocking") and t["args"]:
+                    pl = op_place(t["args"][0])
+                    if pl is not None and len(pl) == 1 and pl[0] in made:
+                        self.spawned[made[pl[0]]] = True
         # async fn: parent fn body -> its coroutine is covered by the aggregate edge above
 
     def callers(self, callee_id):
